@@ -178,7 +178,7 @@ func TestC11(t *testing.T) {
 				// continuation: run the restarted node on
 				if len(pos) > 0 && (hasCompact || !hasSnap || rng.Intn(12) == 0) {
 					stats["continuations"]++
-					if msg := c11Continue(filepath.Join(cdir, "snap"), rejoin, got); msg != "" {
+					if msg := c11Continue(filepath.Join(cdir, "snap"), rejoin, got, rng.Intn(2) == 0); msg != "" {
 						viols = append(viols, verdict{"continuation/" + c11WindowKey(hook.caps, k),
 							fmt.Sprintf("crash before %v: directory {%s} recovers %s, but %s", c.Before, sfFileList(c), got, msg), nil})
 					}
@@ -248,8 +248,18 @@ func c11FilesWitness(c *sfCapture) map[string]string {
 
 // c11Continue restarts a node from the crash directory, lets it record one more
 // member with compaction forced, shuts it down cleanly and reopens.
-func c11Continue(path string, rejoin bool, recovered c10State) string {
-	ops := []c10Op{{Kind: "join", Members: []c10Mem{{Name: "zz-continuation", IP: []byte{10, 9, 9, 9}, Port: 7946}}}, {Kind: "sleep", Gap: time.Second}}
+func c11Continue(path string, rejoin bool, recovered c10State, shrink bool) string {
+	var ops []c10Op
+	want := recovered.clone()
+	if shrink {
+		// the cluster shrinks first: every recovered member fails, so the next compacted image is
+		// shorter than anything an interrupted compaction may have left behind
+		for n := range recovered.Alive {
+			ops = append(ops, c10Op{Kind: "failed", Members: []c10Mem{{Name: n}}})
+			delete(want.Alive, n)
+		}
+	}
+	ops = append(ops, c10Op{Kind: "join", Members: []c10Mem{{Name: "zz-continuation", IP: []byte{10, 9, 9, 9}, Port: 7946}}}, c10Op{Kind: "sleep", Gap: time.Second})
 	run := sfDrive(path, ops, 1, rejoin, nil)
 	if run.Err != nil {
 		return "the restarted node cannot open it again: " + run.Err.Error()
@@ -258,10 +268,9 @@ func c11Continue(path string, rejoin bool, recovered c10State) string {
 	if err != nil {
 		return "after running on, the snapshot cannot be reopened: " + err.Error()
 	}
-	want := recovered.clone()
 	want.Alive["zz-continuation"] = "10.9.9.9:7946"
 	if !got.aliveEqual(want) || got.EventClock != want.EventClock || got.QueryClock != want.QueryClock || got.Clock < want.Clock {
-		return fmt.Sprintf("after the restarted node recorded one more member and shut down cleanly the snapshot holds %s instead of %s", got, want)
+		return fmt.Sprintf("after the restarted node (members failing first: %v) recorded one more member and shut down cleanly the snapshot holds %s instead of %s", shrink, got, want)
 	}
 	return ""
 }
